@@ -5,12 +5,12 @@
 package simnet
 
 import (
-	"os"
 	"context"
 	"errors"
 	"fmt"
 	"io"
 	"net"
+	"os"
 	"strings"
 	"sync"
 	"time"
@@ -53,9 +53,9 @@ type Net struct {
 	// Decide is consulted for every non-handshake command delivery (fault injection). nil = deliver.
 	Decide func(r *RPC) Fault
 	// OnKill is called when a fault kills a member.
-	OnKill func(name string)
-	Log    []string
-	Trace  bool
+	OnKill    func(name string)
+	Log       []string
+	Trace     bool
 	RPCsByCmd map[string]int
 }
 
@@ -67,9 +67,14 @@ func New() *Net {
 
 func Reset() { N = New() }
 
-func (n *Net) Register(addr string, t Target) { n.mu.Lock(); n.targets[addr] = t; delete(n.dead, addr); n.mu.Unlock() }
-func (n *Net) Kill(addr string)               { n.mu.Lock(); n.dead[addr] = true; n.mu.Unlock() }
-func (n *Net) IsDead(addr string) bool        { n.mu.Lock(); defer n.mu.Unlock(); return n.dead[addr] }
+func (n *Net) Register(addr string, t Target) {
+	n.mu.Lock()
+	n.targets[addr] = t
+	delete(n.dead, addr)
+	n.mu.Unlock()
+}
+func (n *Net) Kill(addr string)        { n.mu.Lock(); n.dead[addr] = true; n.mu.Unlock() }
+func (n *Net) IsDead(addr string) bool { n.mu.Lock(); defer n.mu.Unlock(); return n.dead[addr] }
 func (n *Net) Cut(from, to string, on bool) {
 	n.mu.Lock()
 	if on {
@@ -108,7 +113,9 @@ type Conn struct {
 	srv      *SrvConn
 }
 
-func isHandshake(cmd string) bool { return cmd == "hello" || cmd == "client" || cmd == "auth" || cmd == "select" }
+func isHandshake(cmd string) bool {
+	return cmd == "hello" || cmd == "client" || cmd == "auth" || cmd == "select"
+}
 
 func (c *Conn) Write(b []byte) (int, error) {
 	if c.broken || c.closed {
@@ -281,25 +288,31 @@ func (s *SrvConn) flushTo(c *Conn) {
 	s.buf = s.buf[:0]
 }
 
-func (s *SrvConn) RemoteAddr() string          { return s.addr }
-func (s *SrvConn) Close() error                { s.closed = true; if s.client != nil { s.flushTo(s.client) }; return nil }
-func (s *SrvConn) WriteError(msg string)       { s.buf = redcon.AppendError(s.buf, msg) }
-func (s *SrvConn) WriteString(str string)      { s.buf = redcon.AppendString(s.buf, str) }
-func (s *SrvConn) WriteBulk(bulk []byte)       { s.buf = redcon.AppendBulk(s.buf, bulk) }
-func (s *SrvConn) WriteBulkString(bulk string) { s.buf = redcon.AppendBulkString(s.buf, bulk) }
-func (s *SrvConn) WriteInt(num int)            { s.buf = redcon.AppendInt(s.buf, int64(num)) }
-func (s *SrvConn) WriteInt64(num int64)        { s.buf = redcon.AppendInt(s.buf, num) }
-func (s *SrvConn) WriteUint64(num uint64)      { s.buf = redcon.AppendUint(s.buf, num) }
-func (s *SrvConn) WriteArray(count int)        { s.buf = redcon.AppendArray(s.buf, count) }
-func (s *SrvConn) WriteNull()                  { s.buf = redcon.AppendNull(s.buf) }
-func (s *SrvConn) WriteRaw(data []byte)        { s.buf = append(s.buf, data...) }
-func (s *SrvConn) WriteAny(v interface{})      { s.buf = redcon.AppendAny(s.buf, v) }
-func (s *SrvConn) Context() interface{}        { return s.ctx }
-func (s *SrvConn) SetContext(v interface{})    { s.ctx = v }
-func (s *SrvConn) SetReadBuffer(n int)         {}
+func (s *SrvConn) RemoteAddr() string { return s.addr }
+func (s *SrvConn) Close() error {
+	s.closed = true
+	if s.client != nil {
+		s.flushTo(s.client)
+	}
+	return nil
+}
+func (s *SrvConn) WriteError(msg string)          { s.buf = redcon.AppendError(s.buf, msg) }
+func (s *SrvConn) WriteString(str string)         { s.buf = redcon.AppendString(s.buf, str) }
+func (s *SrvConn) WriteBulk(bulk []byte)          { s.buf = redcon.AppendBulk(s.buf, bulk) }
+func (s *SrvConn) WriteBulkString(bulk string)    { s.buf = redcon.AppendBulkString(s.buf, bulk) }
+func (s *SrvConn) WriteInt(num int)               { s.buf = redcon.AppendInt(s.buf, int64(num)) }
+func (s *SrvConn) WriteInt64(num int64)           { s.buf = redcon.AppendInt(s.buf, num) }
+func (s *SrvConn) WriteUint64(num uint64)         { s.buf = redcon.AppendUint(s.buf, num) }
+func (s *SrvConn) WriteArray(count int)           { s.buf = redcon.AppendArray(s.buf, count) }
+func (s *SrvConn) WriteNull()                     { s.buf = redcon.AppendNull(s.buf) }
+func (s *SrvConn) WriteRaw(data []byte)           { s.buf = append(s.buf, data...) }
+func (s *SrvConn) WriteAny(v interface{})         { s.buf = redcon.AppendAny(s.buf, v) }
+func (s *SrvConn) Context() interface{}           { return s.ctx }
+func (s *SrvConn) SetContext(v interface{})       { s.ctx = v }
+func (s *SrvConn) SetReadBuffer(n int)            {}
 func (s *SrvConn) ReadPipeline() []redcon.Command { return nil }
 func (s *SrvConn) PeekPipeline() []redcon.Command { return nil }
-func (s *SrvConn) NetConn() net.Conn           { return s.client }
+func (s *SrvConn) NetConn() net.Conn              { return s.client }
 func (s *SrvConn) Detach() redcon.DetachedConn {
 	s.detached = &Detached{SrvConn: s}
 	s.detached.init()
